@@ -110,6 +110,46 @@ func menu() []op {
 			i64, ok := dA.Int64()
 			return dA.Int(nil).String() + dE.Rat(nil).String() + dA.Float(nil).Text('g', 30) + fmt.Sprint(i64, ok, dA.Float64(), dE.Float32())
 		}},
+		// the same entry points on other argument shapes (each takes a different path through the library)
+		{"ToBig/variants", func() string {
+			u64, ok := dC.Uint64()
+			i32, ok2 := dB.Int32()
+			return dA.Float(new(big.Float).SetPrec(24)).Text('p', 0) + dB.Float(new(big.Float).SetPrec(53)).Text('p', 0) + dD.Float(new(big.Float).SetPrec(200)).Text('g', 20) +
+				dB.Int(big.NewInt(77)).String() + dD.Int(nil).String()[:10] + dB.Rat(big.NewRat(5, 7)).String()[:20] + fmt.Sprint(u64, ok, i32, ok2, dD.Float64(), dB.Float64())
+		}},
+		{"Format/variants", func() string {
+			return dec.Format(dA, 'g', 5) + dec.Format(dA, 'G', 40) + dec.Format(dB, 'E', 0) + dec.Format(dD, 'f', 2)[:30] + string(dE.Append(nil, "#10.3g")) + string(dA.Append(nil, "-20.5f")) + fmt.Sprintf("%08.2f|%+.0e|% g", dC, dB, dE)
+		}},
+		{"Parse/variants", func() string {
+			a, e1 := dec.Parse("-0.00000000000000000000000000000000000000012345678901234567890123456789012345678901234567890e-20")
+			b, e2 := dec.Parse("9999999999999999999999999999999999999999999999999999999999e6100")
+			c, e3 := dec.Parse("1_000_000.5e+3")
+			var d dec.Decimal
+			e4 := d.UnmarshalJSON([]byte("12345678901234567890123456789012345678901234567890.5e-7"))
+			var n, i dec.Decimal
+			fmt.Sscan("NaN -Inf", &n, &i)
+			return fmt.Sprint(bits(a), e1, bits(b), e2, bits(c), e3, bits(d), e4, bits(n), bits(i))
+		}},
+		{"Arith/variants", func() string {
+			q, r := dD.QuoRem(dE)
+			return bits(dD.Add(dB)) + bits(dD.Mul(dD)) + bits(dB.Quo(dD)) + bits(dA.SubWithMode(dA, dec.ToNegativeInf)) + bits(q) + bits(r) + bits(dA.MulWithMode(dB, dec.AwayFromZero)) + fmt.Sprint(dA.Cmp(dD), dB.CmpAbs(dE), dA.Equal(dC))
+		}},
+		{"Elementary/variants", func() string {
+			ten := dec.New(10, 0)
+			near1, _ := dec.Parse("0.99999999999999999999999999")
+			return bits(ten.Pow(dec.New(6112, 0))) + bits(dec.New(100, 0).Pow(dec.New(5, -1))) + bits(dec.New(-2, 0).Pow(dec.New(3, 0))) + bits(dec.Exp10(dec.New(6144, 0))) + bits(dec.Exp2(dec.New(-20000, 0))) +
+				bits(dec.Log(near1)) + bits(dec.Log1p(dB)) + bits(dec.Expm1(dB)) + bits(dec.Sqrt(dD)) + bits(dec.Cbrt(dD)) + bits(dec.Exp(dec.New(14000, 0)))
+		}},
+		{"Compose/From/variants", func() string {
+			var x, y dec.Decimal
+			big32 := append([]byte{1}, make([]byte, 20)...)
+			big64 := append([]byte{1}, make([]byte, 40)...)
+			e1 := x.Compose(0, false, big32, -10)
+			e2 := y.Compose(0, true, big64, -60)
+			huge := new(big.Int).Lsh(big.NewInt(12345), 300)
+			return fmt.Sprint(bits(x), e1, bits(y), e2) + bits(dec.FromInt(huge)) + bits(dec.FromFloat64(1e300)) + bits(dec.FromFloat64(5e-324)) + bits(dec.FromFloat32(1.5e-40)) +
+				bits(dec.FromRat(new(big.Rat).SetFrac(big.NewInt(1), new(big.Int).Exp(big.NewInt(10), big.NewInt(6170), nil)))) + bits(dec.Ldexp(dB, 6000)) + bits(dD.Round(-5990, dec.ToNearestAway)) + bits(dB.Ceil(3)) + bits(dB.Floor(-6200))
+		}},
 	}
 }
 
